@@ -115,6 +115,9 @@ theorem wf_step {s : St} (h : WF s) (e : Ev) : WF (step s e).1 := by
       · exact wf_setKilled h _ _ _ _
       · exact h
     · exact h
+  | rollbackFailedEarly w =>
+    simp only [step]
+    split <;> exact h
   | drop w => exact wf_dropWriter h w
   | wait w => exact wf_dropWriter h w
   | kill w =>
@@ -274,6 +277,9 @@ theorem owned_step {s : St} (hi : Inv s) (h : Owned s) (e : Ev) (hn : noFailedRo
           left
           simp [hg, move, ← he, ho]
       · exact h
+  | rollbackFailedEarly w =>
+    simp only [step]
+    split <;> exact h
   | drop w => exact owned_dropWriter h w
   | wait w => exact owned_dropWriter h w
   | kill w =>
@@ -390,6 +396,9 @@ theorem rolling_step {s : St} (hi : Inv s) {w : Nat} (hr : .rolling w ∈ s.guar
     have hne : w' ≠ w := by
       intro h; exact he b (by rw [h])
     simp [step, hg, hne, hh, isOk]
+  | rollbackFailedEarly w' =>
+    simp only [step]
+    split <;> simp [hh, isOk]
   | drop w' =>
     simp only [step, dropWriter]
     split
